@@ -167,6 +167,11 @@ def run_crashmon(prop, tier, t0):
     c = merged['counters']
     if c.get('c13_kill_did_not_fire'):
         problems.append('%d armed kills did not fire' % c['c13_kill_did_not_fire'])
+    if c.get('c13_audit_mismatch'):
+        problems.append('shim completeness audit: %d runs in which strace and the shim disagree (%s)'
+                        % (c['c13_audit_mismatch'], '; '.join(n for n in merged['notes'] if n.startswith('shim audit'))[:600]))
+    if not c.get('c13_audit_runs_agreeing'):
+        problems.append('shim completeness audit never ran (strace unavailable?)')
     if c.get('c13_event_prefix_mismatch'):
         merged['notes'].append('%d killed runs departed from the dry run\'s event kinds before the kill point'
                                % c['c13_event_prefix_mismatch'])
